@@ -6,6 +6,7 @@ import Pymodbus.Props.C05
 import Pymodbus.Props.C01
 import Pymodbus.Model.Diag
 import Pymodbus.Model.Txn
+import Pymodbus.Generated.Tables
 namespace Pymodbus.Props.C14
 open Pymodbus StoreSpec RegisterFile Props.C18 Props.C04 PduSpec
 
@@ -317,5 +318,18 @@ theorem listen_only_counterexample :
     ∃ msg, Impl.diagReply 4 0 0 [0, 0] [] = some (msg, false) := ⟨rfl, _, rfl⟩
 
 example : Impl.respPduSize 55 (.readCoils 0 9) = some 4 := rfl
+
+
+/-- tie to the source: the per-framing constants of the transaction manager read from /repo on this run — base ADU
+    size and exception ADU length (introspected on a stub client per framer) and the minimum first read of `_recv`
+    (literals in the method body, read by ast) — are the model's, and `Defaults.ReadSize` is the 1024 of
+    `expectedLen` -/
+theorem generated_txn_sizes :
+    Generated.txnSizes = [("tcp", Txn.baseAdu .tcp, Txn.excLen .tcp, Txn.minSize .tcp),
+      ("rtu", Txn.baseAdu .rtu, Txn.excLen .rtu, Txn.minSize .rtu),
+      ("ascii", Txn.baseAdu .ascii, Txn.excLen .ascii, Txn.minSize .ascii),
+      ("binary", Txn.baseAdu .binary, Txn.excLen .binary, Txn.minSize .binary)] ∧
+    Generated.defaultReadSize = 1024 := by
+  constructor <;> rfl
 
 end Pymodbus.Props.C14
